@@ -1,7 +1,7 @@
 """C20 - npTDMS closes the files it opened, only those, and fails loudly afterwards.
 
 Fault enumeration on the simulated descriptor table: per world and API scenario
-  (1) a fault-free run, (2) EIO injected at EVERY read event in turn, (3) EVERY structural field
+  (1) a fault-free run, (1b) EVERY open() call failing in turn, (2) EIO injected at EVERY read event in turn, (3) EVERY structural field
   of every segment garbled with each of several values, a foreign index, (4) close() inserted at
   EVERY position of an op history (generators suspended), double close, reads after close."""
 import io
@@ -24,7 +24,7 @@ N = {'quick': 300, 'thorough': 15000}
 BATCH = 4
 RULE = ('seeded small worlds (1-4 segments, <=3 channels, optional index file, DAQmx worlds included); per world the '
         'scenarios read / read_metadata / open+ops+close / with-open / defragment / TdmsWriter with-block over {path, '
-        'stream} x {index absent, present}; for each scenario: fault-free run, then EIO at EVERY read event k < N '
+        'stream} x {index absent, present}; for each scenario: fault-free run, every open() call of the library failing in turn, then EIO at EVERY read event k < N '
         '(exhaustive per scenario), EVERY structural field (tag, ToC, version, both offsets, object count, path '
         'length, index header, type code, dimension, count, string total, property count / name length / type / '
         'string length) garbled with 0, all-ones, a wrong tag / unknown type, a moderately large count, plus a '
@@ -34,8 +34,8 @@ RULE = ('seeded small worlds (1-4 segments, <=3 channels, optional index file, D
         'while a library-owned handle had been opened')
 EXPECTED_PROBES = ['eio:read-raised', 'corrupt:raised', 'corrupt:survived', 'foreign-index', 'close-with-suspended-generator',
                    'read-after-close:raised', 'read-after-close:cache-hit', 'writer-block-raises', 'writer-block-enospc', 'realfs-fd-check',
-                   'index-present', 'overlapping-files']
-ASSUMPTIONS = ['failures of open()/seek()/tell() are outside what the statement lists and are not injected; a full disk (ENOSPC at every write event in turn) is injected for the TdmsWriter with-block only',
+                   'index-present', 'overlapping-files', 'open-fails:raised', 'writer-open-fails']
+ASSUMPTIONS = ['every open() call the library makes on a path is made to fail in turn (EMFILE for the data file, EACCES for the index file) in the path scenarios and in the TdmsWriter with-block; failures of seek()/tell() are not injected; a full disk (ENOSPC at every write event in turn) is injected for the TdmsWriter with-block only',
                'descriptors left open when TdmsFile.open(...) itself raises are not judged (the statement does not list it)']
 
 
@@ -228,7 +228,7 @@ def judge(st, res, label):
     return out
 
 
-def run_scenario(name, fn, kind, w, data, index, res, label, fail_at=None):
+def run_scenario(name, fn, kind, w, data, index, res, label, fail_at=None, fail_open=None, counts=None):
     """One execution in a fresh store; returns (violations, number of read events, raised?)."""
     with store(record=False) as st:
         st.put('w.tdms', data)
@@ -236,6 +236,8 @@ def run_scenario(name, fn, kind, w, data, index, res, label, fail_at=None):
             st.put('w.tdms_index', index)
         if fail_at is not None:
             st.fs.fail_reads = {fail_at}
+        if fail_open is not None:
+            st.fs.fail_opens = {fail_open}
         raised = None
         try:
             fn(st, kind, w)
@@ -243,6 +245,8 @@ def run_scenario(name, fn, kind, w, data, index, res, label, fail_at=None):
             return [], st.fs.read_events, 'not-judged'
         except Exception as exc:
             raised = type(exc).__name__
+        if counts is not None:
+            counts['opens'] = st.fs.open_events
         vs = judge(st, res, '%s(%s%s)%s%s' % (name, kind, ', index' if index is not None else '', label,
                                               ' raised %s' % raised if raised else ' returned'))
         opened = any(h.owner == 'library' for h in st.fs.handles)
@@ -271,12 +275,26 @@ def execute(case):
             if only is not None and not (only[1] == name and only[2] == kind):
                 continue
             # (1) fault free
-            vs, nreads, raised = run_scenario(name, fn, kind, w, data, index, res, '')
+            counts = {}
+            vs, nreads, raised = run_scenario(name, fn, kind, w, data, index, res, '', counts=counts)
             res.sub_evals += 1
             for v in vs:
                 v.sig.update(phase='fault-free', scenario=name, kind=kind)
             if want('fault-free', name, kind):
                 res.violations += vs
+            # (1b) every open() the library makes fails in turn (descriptor table full; an index file it may not read)
+            if kind == 'path' and (only is None or only[0] == 'open-fails'):
+                for k in (range(counts.get('opens', 0)) if only is None else [only[3]]):
+                    vs, _n, raised = run_scenario(name, fn, kind, w, data, index, res, ' with open() call %d failing' % k, fail_open=k)
+                    res.sub_evals += 1
+                    res.fault('open-fails')
+                    if raised and raised != 'not-judged':
+                        res.probe('open-fails:raised')
+                    for v in vs:
+                        v.sig.update(phase='open-fails', scenario=name, kind=kind, param=k)
+                    res.violations += vs
+                    if len(res.violations) > 3:
+                        return res
             # (2) EIO at every read event
             if only is None or only[0] == 'eio':
                 ks = range(nreads) if only is None else [only[3]]
@@ -591,6 +609,8 @@ def writer_block(case, res):
             with store(record=False) as st:
                 if isinstance(boom, int):
                     st.fs.fail_writes = {boom}
+                if isinstance(boom, tuple):
+                    st.fs.fail_opens = {boom[1]}
                 nptdms = lib.nptdms
                 if sink == 'simpath':
                     target, idx = 'o.tdms', True
@@ -618,8 +638,13 @@ def writer_block(case, res):
                 if boom is None:
                     nwrites = st.fs.write_events
                     plans += list(range(nwrites))
+                    plans += [('open', k) for k in range(st.fs.open_events)]
+                if isinstance(boom, tuple) and raised:
+                    res.probe('writer-open-fails')
+                    res.fault('open-fails')
                 vs = judge(st, res, 'TdmsWriter with-block (%s)%s' % (sink, '' if boom is None else (
-                    ' left by an exception' if boom == 'exc' else ' with ENOSPC at write %d' % boom)))
+                    ' left by an exception' if boom == 'exc' else (' with open() call %d failing' % boom[1] if isinstance(boom, tuple)
+                                                                  else ' with ENOSPC at write %d' % boom))))
                 for v in vs:
                     v.sig.update(phase='writer', kind=sink)
                 out += vs
